@@ -236,7 +236,66 @@ pub fn p_old_int_misc() -> u64 {
     let cs = 5u64.checked_sub(9).unwrap_or(77) + 9u64.checked_sub(5).unwrap_or(77) * 256 + u64::MAX.checked_add(1).unwrap_or(3) * 65536;
     let p = 3u64.pow(5) + std::cmp::min(4u64, 9) * 1000 + std::cmp::max(4u64, 9) * 10000;
     let (lo, hi) = [1u64, 2, 3, 4, 5].split_at(2);
+    let bb = 0x1234_5678u32.to_be_bytes();
+    let lb = 0x1234_5678u32.to_le_bytes();
+    let rb = u32::from_le_bytes(bb) as u64 ^ ((u32::from_be_bytes(lb.map(|x| x.rotate_left(4))) as u64) << 1);
+    let r = r ^ (rb << 17);
     r ^ c ^ (s << 3) ^ (cs << 7) ^ (p << 30) ^ ((lo.len() as u64) << 50) ^ ((hi[0]) << 54)
+}
+
+pub fn p_w2_iters() -> u64 {
+    let mut c = 0u64;
+    let v: Vec<u64> = std::iter::from_fn(|| {
+        c += 1;
+        if c < 5 { Some(c * c) } else { None }
+    })
+    .collect();
+    let z: Vec<u64> = [7u64, 8, 9].iter().copied().zip(3u64..).map(|(a, i)| a * i).collect();
+    let d: std::collections::VecDeque<u64> = std::collections::VecDeque::from(vec![4u64, 5, 6]);
+    let ds: u64 = d.iter().rev().fold(0, |a, x| a * 10 + x);
+    let r: Result<(), u64> = (1u64..10).try_for_each(|x| if x * x > 30 { Err(x) } else { Ok(()) });
+    let o: Option<()> = [1u64, 2, 3].iter().try_for_each(|x| if *x > 5 { None } else { Some(()) });
+    let (a, (b, cc)): (Vec<u64>, (Vec<u64>, Vec<u64>)) = [1u64, 2, 3].iter().map(|x| (*x, (x * 2, x * 3))).unzip();
+    let data = [1u8, 2, 3, 4, 5, 6, 7];
+    let mut ch = data.chunks_exact(3);
+    let mut acc = 0u64;
+    for c3 in &mut ch {
+        acc = acc * 100 + c3.iter().map(|x| *x as u64).sum::<u64>();
+    }
+    let rem = ch.remainder().len() as u64;
+    h(&v) ^ (h(&z) << 1) ^ (ds << 8) ^ (r.unwrap_err() << 20) ^ ((o.is_some() as u64) << 28) ^ h(&a) ^ (h(&b) << 2) ^ (h(&cc) << 3) ^ (acc << 30) ^ (rem << 50)
+}
+pub fn p_w2_misc() -> u64 {
+    use std::cmp::Reverse;
+    use std::collections::HashSet;
+    let t1 = (3u64, Reverse(5u64));
+    let t2 = (3u64, Reverse(7u64));
+    let c = (t1 < t2) as u64 + 2 * ((t1.cmp(&t2) == std::cmp::Ordering::Greater) as u64) + 4 * ((t1.partial_cmp(&t2) == Some(std::cmp::Ordering::Greater)) as u64);
+    let ov: Option<Vec<u64>> = Some(vec![1, 2, 3]);
+    let sl: Option<&[u64]> = ov.as_deref();
+    let n = sl.map_or(0, |s| s.len() as u64);
+    let mut hs: HashSet<u64> = [3u64, 5, 3].iter().copied().collect();
+    let i1 = hs.insert(7) as u64;
+    let i2 = hs.insert(5) as u64;
+    let hc = hs.contains(&3) as u64 + 2 * (hs.contains(&4) as u64);
+    let hl = hs.len() as u64;
+    let parts: Vec<u64> = "ACNGTnA".split(|ch| ch == 'N' || ch == 'n').filter(|p| !p.is_empty()).map(|p| p.len() as u64).collect();
+    const TAB: [u8; 4] = [9, 7, 5, 3];
+    let idx = (data_idx() & 3) as usize;
+    let tv = TAB[idx] as u64;
+    c ^ (n << 4) ^ (i1 << 8) ^ (i2 << 9) ^ (hc << 10) ^ (hl << 12) ^ (h(&parts) << 16) ^ (tv << 60)
+}
+fn data_idx() -> u64 {
+    6
+}
+pub fn p_w2_threads() -> u64 {
+    let data = vec![1u64, 2, 3, 4, 5, 6];
+    let (a, b) = std::thread::scope(|s| {
+        let h1 = s.spawn(|| data[..3].iter().sum::<u64>());
+        let h2 = s.spawn(|| data[3..].iter().product::<u64>());
+        (h1.join().unwrap(), h2.join().unwrap())
+    });
+    a ^ (b << 16)
 }
 
 #[cfg(test)]
@@ -266,6 +325,9 @@ mod probe_tests {
             ("p_old_iter_adapters", p_old_iter_adapters()),
             ("p_old_deque_option", p_old_deque_option()),
             ("p_old_int_misc", p_old_int_misc()),
+            ("p_w2_iters", p_w2_iters()),
+            ("p_w2_misc", p_w2_misc()),
+            ("p_w2_threads", p_w2_threads()),
         ];
         for (n, v) in all {
             println!("PROBE {} {}", n, v);
